@@ -611,13 +611,16 @@ impl Ctrl {
 
     pub fn release(&self, actor: usize) {
         let mut g = self.lock();
+        let is_timer = g.timer_actor == Some(actor);
         let a = &mut g.actors[actor];
         assert!(a.st == ASt::AtPoint);
         a.go = true;
         a.st = ASt::Running;
-        if a.kernel_of == Some(actor) {
-            // a passive actor is at work from this moment on, not only once its thread has woken up (else the
-            // driver could see it "settled" in between and let somebody else overtake its step)
+        if a.kernel_of == Some(actor) && is_timer {
+            // the timer thread is at work from this moment on, not only once it has woken up (else the driver could
+            // see it "settled" in between and let somebody else overtake its step).  Not for the event loops: several
+            // worker threads share the one passive actor "sel", and with the flag set here executions of the io
+            // scenario ended as false "missed readiness" (2 of 4 runs of C18; not understood, reverted for them)
             a.passive_busy = true;
         }
         a.steps += 1;
